@@ -436,10 +436,24 @@ type scenario struct {
 	// Flaky: objects whose status may regress (others only ever become ready)
 	Flaky     []string `json:"flaky"`
 	Conflicts int      `json:"conflicts"`
+	// CP: collisionProtection of every object of every template (default Prevent)
+	CP string `json:"collisionProtection"`
 }
 
 func (sc scenario) name() string {
-	return fmt.Sprintf("deployment edits=%d limit=%d statuses=%d flaky=%v", sc.Edits, sc.Limit, len(sc.Classes), sc.Flaky)
+	return fmt.Sprintf("deployment edits=%d limit=%d statuses=%d flaky=%v cp=%s", sc.Edits, sc.Limit, len(sc.Classes), sc.Flaky, sc.CP)
+}
+
+func (sc scenario) template(i int) corev1alpha1.ObjectSetTemplateSpec {
+	t := osw.Template(osw.OnePhase(tmpls[i]...), int64(i+1))
+	if sc.CP != "" {
+		for pi := range t.Phases {
+			for oi := range t.Phases[pi].Objects {
+				t.Phases[pi].Objects[oi].CollisionProtection = corev1alpha1.CollisionProtection(sc.CP)
+			}
+		}
+	}
+	return t
 }
 
 var tmpls = [][]string{{"a", "b"}, {"a", "c"}, {"a", "b"}}
@@ -454,7 +468,7 @@ func system(sc scenario) *world.System {
 				l := int32(sc.Limit)
 				lim = &l
 			}
-			w.MustCreate(osw.NewOD("d", osw.Template(osw.OnePhase(tmpls[0]...), 1), lim))
+			w.MustCreate(osw.NewOD("d", sc.template(0), lim))
 			w.Budget["edit"] = sc.Edits
 			w.Budget["conflict"] = sc.Conflicts
 			return w
@@ -481,7 +495,7 @@ func system(sc scenario) *world.System {
 				i := sc.Edits - e + 1
 				evs = append(evs, world.Event{Name: fmt.Sprintf("user:edit-template:%s", strings.Join(tmpls[i], "")), Apply: func(w *world.World) *world.Pass {
 					w.Budget["edit"]--
-					osw.SetODTemplate(w, "d", osw.Template(osw.OnePhase(tmpls[i]...), int64(i+1)))
+					osw.SetODTemplate(w, "d", sc.template(i))
 					return nil
 				}})
 			}
@@ -522,8 +536,10 @@ func system(sc scenario) *world.System {
 
 func scenarios(quick bool) []scenario {
 	two := []string{"ready", "notready"}
-	out := []scenario{{Edits: 1, Limit: 0, Classes: two, Flaky: []string{"a"}}, {Edits: 1, Limit: -1, Classes: two, Flaky: []string{"c"}}, {Edits: 1, Limit: 0, Classes: []string{"ready"}, Flaky: []string{}, Conflicts: 1}}
+	out := []scenario{{Edits: 1, Limit: 0, Classes: two, Flaky: []string{"a"}}, {Edits: 1, Limit: -1, Classes: two, Flaky: []string{"c"}}, {Edits: 1, Limit: 0, Classes: []string{"ready"}, Flaky: []string{}, Conflicts: 1},
+		{Edits: 1, Limit: 0, Classes: two, Flaky: []string{"c"}, CP: "None"}}
 	if !quick {
+		out = append(out, scenario{Edits: 2, Limit: 1, Classes: two, Flaky: []string{"a"}, CP: "None"}, scenario{Edits: 2, Limit: 0, Classes: []string{"ready"}, Flaky: []string{}, CP: "IfNoController"})
 		out = append(out, scenario{Edits: 2, Limit: 0, Classes: []string{"ready"}, Flaky: []string{}}, scenario{Edits: 1, Limit: -1, Classes: two}, scenario{Edits: 2, Limit: 0, Classes: two, Flaky: []string{"a"}}, scenario{Edits: 2, Limit: 1, Classes: two, Flaky: []string{"b", "c"}})
 	}
 	return out
